@@ -365,12 +365,13 @@ class _KeepOpen(io.StringIO):
     name = "<stdout>"
 
 
-def run_cli(argv, stdin_bytes=None, cwd=None, entry="main"):
+def run_cli(argv, stdin_bytes=None, cwd=None, entry="main", clear_linecache=True):
     """Run a bandit console script in-process.  Returns dict(exit, out, err, exc).
     exit is the SystemExit code (None if main returned); exc is the class name of any other
     exception that escaped (a traceback in real life)."""
     import contextlib
-    linecache.clearcache()
+    if clear_linecache:
+        linecache.clearcache()
     take_log()
     if entry == "main":
         from bandit.cli import main as m
